@@ -92,7 +92,10 @@ def tier_of(cfg, n):
         return 'thorough'
     if STRUCT_RX.match(n) and n not in STRUCT_QUICK_ALL:
         return 'quick' if cfg == 'cxx98_unknown' else 'thorough'
-    return 'quick' if (cfg in QUICK_CFG or cfg == 'O0') else 'thorough'
+    if cfg == 'O0':
+        # -O0 keeps every loop and call: the vec4 forms of the bit-counting loops and the float packers take 1-2 min each there
+        return 'thorough' if re.search(r'_v4$|^glm_pack|^glm_bitfieldReverse', n) else 'quick'
+    return 'quick' if cfg in QUICK_CFG else 'thorough'
 
 
 src_contracts = {}
@@ -132,7 +135,7 @@ for cfg, b in builds.items():
                 req.append(('components_not_nan', ' && '.join('%s == %s' % (x, x) for x in fl)))
         P.contract(n, '%s shim %s under %s vs default configuration' % (modname, n, ' '.join(CONFIGS.get(cfg, ['-' + cfg]))),
                    requires=req, ensures=ens, build=b, rel=('cfg_default', [n]), unwind=max(sc.unwind, 12) if (sc is not None and sc.unwind < 60) else 12,
-                   uf_float=('fmul', 'fdiv', 'fadd', 'fsub', 'sqrt', 'imul', 'iudiv', 'iurem', 'isdiv', 'isrem'), timeout=120, tier=tier_of(cfg, n),
+                   uf_float=('fmul', 'fdiv', 'fadd', 'fsub', 'sqrt', 'imul', 'iudiv', 'iurem', 'isdiv', 'isrem'), timeout=300 if cfg == 'O0' else 120, tier=tier_of(cfg, n),
                    backends=('sat',))
 
 P.level_text = ('for every (configuration, operation) of the generated table the result computed by the code clang extracts under that '
